@@ -170,6 +170,12 @@ func TestVerifC12_fourq(t *testing.T) {
 		f.CheckUn(r, op, all, true)
 	}
 	f.CheckPred(r, bf.Pred{Name: "isZero", Do: func(x bf.Elem) bool { return x.(*Fp).isZero() }, Ref: bf.RefIsZero}, all)
+	{
+		b := []bf.Operand{{V: new(big.Int), Name: "0"}, {V: big.NewInt(1), Name: "1"}, {V: new(big.Int).Sub(P, big.NewInt(1)), Name: "p-1"}, {V: bf.Pseudo("fourq-pred", 0, P), Name: "pseudo0"}, {V: bf.Pseudo("fourq-pred", 1, P), Name: "pseudo1"}}
+		b = append(b, bf.Operand{V: P, Name: "p"})
+		f.CheckBitFlips(r, bf.BitFlip{Coords: 1, Bits: 128, P: P, Limit: lim, IsZero: func(x bf.Elem) bool { return x.(*Fp).isZero() }}, b)
+		r.RequireCounter("fourq.Fp.predicates.one-bit-neighbours", 6*126)
+	}
 	r.RequireCounter("fourq.Fp.isZero.true", 2)
 	// toBigInt must be canonical
 	for i := range all.Ops {
@@ -251,6 +257,13 @@ func TestVerifC12_fourq(t *testing.T) {
 		c := bf.Unpack(x, 128, 2)
 		return c[0].Mod(c[0], P).Sign() == 0 && c[1].Mod(c[1], P).Sign() == 0
 	}}, qall)
+	{
+		pm1 := n().Sub(P, big.NewInt(1))
+		qb := []bf.Operand{{V: n(), Name: "0"}, {V: big.NewInt(1), Name: "1"}, {V: bf.Pack(128, pm1, pm1), Name: "(p-1,p-1)"}, {V: bf.Pack(128, P, P), Name: "(p,p)"}, {V: bf.Pack(128, n(), P), Name: "(0,p)"},
+			{V: bf.Pack(128, bf.Pseudo("fourq-pred", 2, P), bf.Pseudo("fourq-pred", 3, P)), Name: "pseudo"}}
+		q.CheckBitFlips(r, bf.BitFlip{Coords: 2, Width: 128, Bits: 128, P: P, Limit: lim, IsZero: func(x bf.Elem) bool { return x.(*Fq).isZero() }}, qb)
+		r.RequireCounter("fourq.Fq.predicates.one-bit-neighbours", 6*2*126)
+	}
 	r.RequireCounter("fourq.Fq.isZero.true", 4)
 	qsmall := q.Prepare("s", bf.Thin(qops, r.Pick(40, 90)))
 	q.CheckCmov(r, "fqCmov", func(x, y bf.Elem, b int) { fqCmov(x.(*Fq), y.(*Fq), b) }, []int{0, 1}, qsmall, qsmall)
